@@ -1349,6 +1349,9 @@ def sub_prog(case):
 
 # --- conditionals
 COND_VALUES = [b'', b'\x01', b'\x00', b'\x80']
+# conditions wider than a script number (a hash, a key or a signature is a usual IF/NOTIF condition): zero, negative
+# zero and non-zero of 5 bytes, a 20-byte item; used for the shapes with at most 2 conditions
+COND_WIDE = [b'\x00' * 5, b'\x00' * 4 + b'\x80', b'\x01' + b'\x00' * 4, bytes(range(1, 21)), b'\x00' * 19 + b'\x80']
 
 
 def cond_shapes(depth):
@@ -1407,6 +1410,8 @@ def sub_cond(case):
     for si in range(case['lo'], case['hi']):
         tree, nconds = shapes[si]
         values = COND_VALUES[:3] if case.get('quick') and nconds >= 3 else COND_VALUES
+        if nconds <= (1 if case.get('quick') else 2):
+            values = COND_VALUES + COND_WIDE
         for conds in itertools.product(values, repeat=nconds):
             for inline, style in ((True, 0), (False, 0), (True, 1)):
                 prog = cond_program(tree, list(conds), inline, style)
